@@ -89,6 +89,12 @@ func (w *World) runStructural(spec string) []structResult {
 		return w.structDeterminism(strings.Split(parts[1], ","), allow)
 	case "pool":
 		return w.structPool()
+	case "fswriters":
+		return w.structFSWriters()
+	case "globalstore":
+		// globalstore:cache.Path=cache.init  (the global is only stored to by that function)
+		kv := strings.SplitN(parts[1], "=", 2)
+		return w.structGlobalStore(kv[0], kv[1])
 	}
 	return []structResult{{Name: spec, OK: false, Detail: fmt.Sprintf("unknown structural check %q", spec)}}
 }
@@ -187,4 +193,142 @@ func (w *World) structPool() []structResult {
 	}
 	out = append(out, structResult{Name: "pool:worker-drains-jobs", OK: ok4 && n4 > 0, Detail: strings.Join(bad4, "; ")})
 	return out
+}
+
+// structFSWriters (C19): the ghost set fswrites is only as complete as the set of primitives that
+// update it. Every call from non-test code of /repo into a file-system mutating primitive of the
+// standard library must (a) go to a primitive whose assumed contract lists fswrites in its
+// modifies clause and (b) be made by a function whose body is verified against a contract (so the
+// call is charged to that function's frame).
+func (w *World) structFSWriters() []structResult {
+	mut := map[string]bool{}
+	for _, n := range []string{"os.WriteFile", "os.Create", "os.OpenFile", "os.Remove", "os.RemoveAll", "os.Mkdir", "os.MkdirAll", "os.Rename",
+		"os.Truncate", "os.Chmod", "os.Chown", "os.Lchown", "os.Symlink", "os.Link", "os.Chtimes", "os.CreateTemp", "os.MkdirTemp", "os.CopyFS",
+		"os.(*File).Write", "os.(*File).WriteString", "os.(*File).WriteAt", "os.(*File).Truncate", "os.(*File).ReadFrom", "os.(*File).Chmod", "os.(*File).Chown",
+		"io/ioutil.WriteFile", "io/ioutil.TempFile", "io/ioutil.TempDir", "os.(*Root).Create", "os.(*Root).OpenFile", "os.(*Root).Mkdir", "os.(*Root).Remove"} {
+		mut[n] = true
+	}
+	var keys []string
+	for k, f := range w.prog.funcs {
+		if f.Blocks != nil && f.Pkg != nil && strings.HasPrefix(f.Pkg.Pkg.Path(), "github.com/FollowTheProcess/spok") {
+			keys = append(keys, k)
+		}
+	}
+	sort.Strings(keys)
+	var bad []string
+	n := 0
+	for _, k := range keys {
+		f := w.prog.funcs[k]
+		for _, b := range f.Blocks {
+			for _, ins := range b.Instrs {
+				var cc *ssa.CallCommon
+				switch x := ins.(type) {
+				case *ssa.Call:
+					cc = &x.Call
+				case *ssa.Defer:
+					cc = &x.Call
+				case *ssa.Go:
+					cc = &x.Call
+				}
+				if cc == nil {
+					continue
+				}
+				callee := cc.StaticCallee()
+				if callee == nil {
+					continue
+				}
+				ck := funcKey(callee)
+				if !mut[ck] {
+					continue
+				}
+				n++
+				pos := w.prog.prog.Fset.Position(ins.Pos()).String()
+				cs, ok := w.funcSpecs[ck]
+				hasFS := false
+				if ok {
+					for _, m := range cs.Modifies {
+						if strings.Contains(fmt.Sprint(m), "fswrites") {
+							hasFS = true
+						}
+					}
+				}
+				if !hasFS {
+					bad = append(bad, ck+" called at "+pos+" has no assumed contract that records the write in fswrites")
+				}
+				// the caller (or, for a closure, its outermost parent) is verified against a contract
+				top := f
+				for top.Parent() != nil {
+					top = top.Parent()
+				}
+				us, ok1 := w.funcSpecs[k]
+				ts, ok2 := w.funcSpecs[funcKey(top)]
+				verified := (ok1 && !us.Assumed && us.Trusted == "") || (ok2 && !ts.Assumed && ts.Trusted == "" && f != top && w.inlinable(f))
+				if !verified {
+					bad = append(bad, k+" calls "+ck+" at "+pos+" but is not verified against a contract")
+				}
+			}
+		}
+	}
+	return []structResult{{Name: "fswriters:every-write-primitive-is-charged-to-a-verified-frame", OK: len(bad) == 0, Detail: fmt.Sprintf("%d calls to file-system mutating primitives; %s", n, strings.Join(bad, "; "))}}
+}
+
+func (w *World) inlinable(f *ssa.Function) bool { return false }
+
+// structGlobalStore: the package-level variable `global` ("pkg.Name") is stored to only inside `only`.
+func (w *World) structGlobalStore(global, only string) []structResult {
+	var bad []string
+	n := 0
+	for k, f := range w.prog.funcs {
+		if f.Blocks == nil {
+			continue
+		}
+		for _, b := range f.Blocks {
+			for _, ins := range b.Instrs {
+				st, ok := ins.(*ssa.Store)
+				if !ok {
+					continue
+				}
+				gv, ok := st.Addr.(*ssa.Global)
+				if !ok || gv.Pkg == nil {
+					continue
+				}
+				if shortPkg(gv.Pkg.Pkg)+"."+gv.Name() != global {
+					continue
+				}
+				n++
+				if k != only {
+					bad = append(bad, k+" stores to "+global+" at "+w.prog.prog.Fset.Position(ins.Pos()).String())
+				}
+			}
+		}
+	}
+	sort.Strings(bad)
+	// the address of the global must not escape either (a store through a pointer would go unseen)
+	for k, f := range w.prog.funcs {
+		if f.Blocks == nil {
+			continue
+		}
+		for _, b := range f.Blocks {
+			for _, ins := range b.Instrs {
+				for _, op := range ins.Operands(nil) {
+					gv, ok := (*op).(*ssa.Global)
+					if !ok || gv.Pkg == nil || shortPkg(gv.Pkg.Pkg)+"."+gv.Name() != global {
+						continue
+					}
+					switch x := ins.(type) {
+					case *ssa.UnOp:
+						continue // load
+					case *ssa.Store:
+						if x.Addr == gv {
+							continue
+						}
+					case *ssa.DebugRef:
+						continue
+					}
+					bad = append(bad, k+" takes the address of "+global+" at "+w.prog.prog.Fset.Position(ins.Pos()).String())
+				}
+			}
+		}
+	}
+	return []structResult{{Name: "globalstore:" + global + "-only-in-" + only, OK: len(bad) == 0 && n > 0, Detail: fmt.Sprintf("%d stores; %s", n, strings.Join(bad, "; "))}}
 }
